@@ -172,6 +172,9 @@ func (s *Server) cmdSetHook(msg *Message) (
 				return resp.IntegerValue(0), d, nil
 			}
 		}
+		prevHook.cond.L.Lock()
+		prevHook.next = hook
+		prevHook.cond.L.Unlock()
 		prevHook.Close()
 		s.hooks.Delete(prevHook)
 		s.hooksOut.Delete(prevHook)
@@ -491,6 +494,7 @@ type Hook struct {
 	expires    time.Time
 	counter    *atomic.Int64 // counter that grows when a message was sent
 	sig        int
+	next       *Hook // the definition that replaced this one, if any
 }
 
 // Expires returns when the hook expires. Required by the expire.Item interface.
@@ -605,6 +609,11 @@ func (h *Hook) manager() {
 	for {
 		if h.closed {
 			// the hook has closed, end manager
+			if h.next != nil {
+				// entries that this manager put back into the queue after
+				// a failed send are taken over by the new definition
+				h.next.Signal()
+			}
 			return
 		}
 		sig = h.sig
